@@ -8,6 +8,7 @@ import (
 	"io"
 	"os"
 	"strconv"
+	"sync/atomic"
 )
 
 // GetCursorPos returns the current cursor position in the terminal.
@@ -20,6 +21,11 @@ func (k *Keys) GetCursorPos() (x, y int) {
 
 	var cursor []byte
 	var match [][]string
+
+	// Let the main key reading routine know that a response is expected:
+	// it does not hand over (and wait on) those that nobody asked for.
+	atomic.AddInt32(&k.cursorReq, 1)
+	defer atomic.AddInt32(&k.cursorReq, -1)
 
 	// Echo the query and wait for the main key
 	// reading routine to send us the response back.
@@ -114,7 +120,9 @@ func (k *Keys) readInputFiltered() (keys []byte, err error) {
 	// If found, strip it and keep the remaining keys.
 	cursor, keys := k.extractCursorPos(buf[:read])
 
-	if len(cursor) > 0 {
+	// A cursor response that nobody is waiting for (not ours, or
+	// pasted text) is dropped: sending it would block forever.
+	if len(cursor) > 0 && atomic.LoadInt32(&k.cursorReq) > 0 {
 		k.cursor <- cursor
 	}
 
